@@ -179,6 +179,11 @@ def _shard_main(args):
         mod = importlib.import_module(f"pv.props.{prop.lower()}")
         ctx = Ctx(prop, tier, seed, shard, nshards)
         mod.run_shard(ctx)
+        from pv import repo
+
+        ctx.stats.extra["fast_infer_self_checks"] = repo.FAST["checked"]
+        if repo.FAST["disabled_because"]:
+            ctx.stats.notes["fast-infer-disabled: " + repo.FAST["disabled_because"]] += 1
         return {"ok": True, "stats": ctx.stats.dump()}
     except Exception:
         return {"ok": False, "error": traceback.format_exc()}
